@@ -45,7 +45,7 @@ static sem_t ctl;
 static int prefix[MAXD], nprefix;
 static int choices[MAXD], nen[MAXD], still[MAXD], nch;
 static char logbuf[MAXLOG]; static int loglen;
-static int aborted, deadlock, livelock, infra;
+static int aborted, deadlock, livelock, infra, horizon;
 static int spin_count;     /* consecutive yields of the only enabled thread */
 static int last_run[MAXT];
 static long progress;      /* steps that change shared state (anything but a failed spin) */
@@ -128,7 +128,7 @@ static int decide(int c)
     else
         spin_count = 0;
     k = nch;
-    if (k >= MAXD - 1) { infra = 2; cur = -1; return -1; }
+    if (k >= MAXD - 1) { horizon = 1; cur = -1; return -1; }   /* ten times the longest normal run */
     ch = 0;
     if (k < nprefix) {
         ch = prefix[k];
@@ -399,6 +399,7 @@ static void run_execution(int nthreads, char **progs, int outfd)
     if (first >= 0) { sem_post(&T[first].sem); sem_wait(&ctl); }
     if (deadlock) verif_event("DEADLOCK");
     if (livelock) verif_event("LIVELOCK");
+    if (horizon) verif_event("HORIZON");
     /* header: infra, nch, then (choice,nen,still) triples */
     hl += snprintf(head + hl, sizeof head - hl, "%d %d", infra, nch);
     for (i = 0; i < nch && hl < (int)sizeof head - 32; i++)
